@@ -23,3 +23,367 @@ theorem linSearch_nil (tags : List (Nat × List Nat)) (final : List Nat) (rs : L
   cases fuel <;> simp [linSearch]
 
 end SV
+
+namespace SV
+
+theorem linSearch_zero_cons (tags : List (Nat × List Nat)) (final : List Nat) (rs : List LRec)
+    (s : LState) (a : Nat) (as : List Nat) (dead : Dead) :
+    linSearch tags final rs 0 s (a :: as) dead = (false, dead) := by
+  simp [linSearch]
+
+theorem linSearch_succ_cons (tags : List (Nat × List Nat)) (final : List Nat) (rs : List LRec) (fuel : Nat)
+    (s : LState) (a : Nat) (as : List Nat) (dead : Dead) :
+    linSearch tags final rs (fuel + 1) s (a :: as) dead =
+      if dead.contains (s.reg, s.selected, a :: as) then (false, dead)
+      else
+        let r := linTry tags final rs fuel s (a :: as) (a :: as) dead
+        if r.1 then r else (false, (s.reg, s.selected, a :: as) :: r.2) := by
+  simp [linSearch]
+
+theorem linTry_nil (tags : List (Nat × List Nat)) (final : List Nat) (rs : List LRec) (fuel : Nat)
+    (s : LState) (rem : List Nat) (dead : Dead) :
+    linTry tags final rs fuel s rem [] dead = (false, dead) := by
+  cases fuel <;> simp [linTry]
+
+/-- the outcome of trying candidate `i` -/
+def tryOne (tags : List (Nat × List Nat)) (final : List Nat) (rs : List LRec) (fuel : Nat)
+    (s : LState) (rem : List Nat) (i : Nat) (dead : Dead) : Bool × Dead :=
+  if minimalIn rs rem i then
+    match rs[i]? with
+    | none => (false, dead)
+    | some r =>
+        match lApply tags s r.op with
+        | none => (false, dead)
+        | some s' => linSearch tags final rs fuel s' (rem.filter (· != i)) dead
+  else (false, dead)
+
+theorem linTry_cons (tags : List (Nat × List Nat)) (final : List Nat) (rs : List LRec) (fuel : Nat)
+    (s : LState) (rem : List Nat) (i : Nat) (cands : List Nat) (dead : Dead) :
+    linTry tags final rs fuel s rem (i :: cands) dead =
+      if (tryOne tags final rs fuel s rem i dead).1 then tryOne tags final rs fuel s rem i dead
+      else linTry tags final rs fuel s rem cands (tryOne tags final rs fuel s rem i dead).2 := by
+  cases fuel <;> (simp only [linTry, tryOne]; rfl)
+
+end SV
+
+namespace SV
+
+/-! ### soundness: a successful search exhibits a linearization -/
+
+theorem tryOne_sound (tags : List (Nat × List Nat)) (final : List Nat) (rs : List LRec) (fuel : Nat)
+    (hS : ∀ s rem dead, (linSearch tags final rs fuel s rem dead).1 = true → Lin tags final rs s rem)
+    (s : LState) (rem : List Nat) (i : Nat) (hi : i ∈ rem) (dead : Dead)
+    (h : (tryOne tags final rs fuel s rem i dead).1 = true) : Lin tags final rs s rem := by
+  unfold tryOne at h
+  by_cases hm : minimalIn rs rem i = true
+  · simp only [hm, if_true] at h
+    cases hr : rs[i]? with
+    | none => simp [hr] at h
+    | some r =>
+        simp only [hr] at h
+        cases ha : lApply tags s r.op with
+        | none => simp [ha] at h
+        | some s' =>
+            simp only [ha] at h
+            exact Lin.step s s' rem i r hi hm hr ha (hS _ _ _ h)
+  · simp [hm] at h
+
+theorem linTry_sound (tags : List (Nat × List Nat)) (final : List Nat) (rs : List LRec) (fuel : Nat)
+    (hS : ∀ s rem dead, (linSearch tags final rs fuel s rem dead).1 = true → Lin tags final rs s rem)
+    (s : LState) (rem : List Nat) :
+    ∀ (cands : List Nat) (dead : Dead), (∀ i ∈ cands, i ∈ rem) →
+      (linTry tags final rs fuel s rem cands dead).1 = true → Lin tags final rs s rem := by
+  intro cands
+  induction cands with
+  | nil => intro dead _ h; simp [linTry_nil] at h
+  | cons i cs ih =>
+      intro dead hc h
+      rw [linTry_cons] at h
+      by_cases h1 : (tryOne tags final rs fuel s rem i dead).1 = true
+      · exact tryOne_sound tags final rs fuel hS s rem i (hc i (by simp)) dead h1
+      · simp only [h1, Bool.false_eq_true, if_false] at h
+        exact ih _ (fun j hj => hc j (by simp [hj])) h
+
+theorem linSearch_sound (tags : List (Nat × List Nat)) (final : List Nat) (rs : List LRec) :
+    ∀ (fuel : Nat) (s : LState) (rem : List Nat) (dead : Dead),
+      (linSearch tags final rs fuel s rem dead).1 = true → Lin tags final rs s rem := by
+  intro fuel
+  induction fuel with
+  | zero =>
+      intro s rem dead h
+      cases rem with
+      | nil => rw [linSearch_nil] at h; exact Lin.done s (by simpa using h)
+      | cons a as => simp [linSearch_zero_cons] at h
+  | succ f ih =>
+      intro s rem dead h
+      cases rem with
+      | nil => rw [linSearch_nil] at h; exact Lin.done s (by simpa using h)
+      | cons a as =>
+          rw [linSearch_succ_cons] at h
+          by_cases hd : (s.reg, s.selected, a :: as) ∈ dead
+          · simp [hd] at h
+          · by_cases hr : (linTry tags final rs f s (a :: as) (a :: as) dead).1 = true
+            · exact linTry_sound tags final rs f ih s (a :: as) (a :: as) dead (fun _ hi => hi) hr
+            · simp [hd, hr] at h
+
+/-! ### completeness: a failed search means there is no linearization -/
+
+theorem filter_ne_length_lt (rem : List Nat) (i : Nat) (hi : i ∈ rem) :
+    (rem.filter (· != i)).length < rem.length := by
+  induction rem with
+  | nil => cases hi
+  | cons x xs ih =>
+      simp only [List.filter_cons]
+      by_cases hx : x = i
+      · subst hx
+        simp only [bne_self_eq_false, Bool.false_eq_true, if_false, List.length_cons]
+        have := List.length_filter_le (fun y => y != x) xs
+        omega
+      · have hx' : (x != i) = true := by simpa using hx
+        simp only [hx', if_true, List.length_cons]
+        have : i ∈ xs := by
+          rcases List.mem_cons.mp hi with h | h
+          · exact absurd h.symm hx
+          · exact h
+        have := ih this
+        omega
+
+/-- what a failed attempt on candidate `i` means -/
+def NoStep (tags : List (Nat × List Nat)) (final : List Nat) (rs : List LRec) (s : LState)
+    (rem : List Nat) (i : Nat) : Prop :=
+  ¬ (minimalIn rs rem i = true ∧ ∃ r s', rs[i]? = some r ∧ lApply tags s r.op = some s' ∧
+      Lin tags final rs s' (rem.filter (· != i)))
+
+theorem tryOne_complete (tags : List (Nat × List Nat)) (final : List Nat) (rs : List LRec) (fuel : Nat)
+    (hS : ∀ s rem dead, rem.length ≤ fuel → DeadOK tags final rs dead →
+      DeadOK tags final rs (linSearch tags final rs fuel s rem dead).2 ∧
+      ((linSearch tags final rs fuel s rem dead).1 = false → ¬ Lin tags final rs s rem))
+    (s : LState) (rem : List Nat) (hl : rem.length ≤ fuel + 1) (i : Nat) (hi : i ∈ rem) (dead : Dead)
+    (hd : DeadOK tags final rs dead) :
+    DeadOK tags final rs (tryOne tags final rs fuel s rem i dead).2 ∧
+    ((tryOne tags final rs fuel s rem i dead).1 = false → NoStep tags final rs s rem i) := by
+  unfold tryOne NoStep
+  by_cases hm : minimalIn rs rem i = true
+  · simp only [hm, if_true]
+    cases hr : rs[i]? with
+    | none => exact ⟨hd, fun _ ⟨_, r, s', h1, _⟩ => by simp at h1⟩
+    | some r =>
+        simp only []
+        cases ha : lApply tags s r.op with
+        | none =>
+            refine ⟨hd, fun _ ⟨_, r', s', h1, h2, _⟩ => ?_⟩
+            have : r' = r := by simpa using h1.symm
+            subst this
+            rw [ha] at h2; cases h2
+        | some s' =>
+            simp only []
+            have hlen := filter_ne_length_lt rem i hi
+            obtain ⟨d2, c2⟩ := hS s' (rem.filter (· != i)) dead (by omega) hd
+            refine ⟨d2, fun hf ⟨_, r', s'', h1, h2, h3⟩ => ?_⟩
+            have : r' = r := by simpa using h1.symm
+            subst this
+            rw [ha] at h2
+            have : s'' = s' := by simpa using h2.symm
+            subst this
+            exact c2 hf h3
+  · simp only [hm, Bool.false_eq_true, if_false]
+    exact ⟨hd, fun _ ⟨h, _⟩ => h.elim⟩
+
+theorem linTry_complete (tags : List (Nat × List Nat)) (final : List Nat) (rs : List LRec) (fuel : Nat)
+    (hS : ∀ s rem dead, rem.length ≤ fuel → DeadOK tags final rs dead →
+      DeadOK tags final rs (linSearch tags final rs fuel s rem dead).2 ∧
+      ((linSearch tags final rs fuel s rem dead).1 = false → ¬ Lin tags final rs s rem))
+    (s : LState) (rem : List Nat) (hl : rem.length ≤ fuel + 1) :
+    ∀ (cands : List Nat) (dead : Dead), (∀ i ∈ cands, i ∈ rem) → DeadOK tags final rs dead →
+      DeadOK tags final rs (linTry tags final rs fuel s rem cands dead).2 ∧
+      ((linTry tags final rs fuel s rem cands dead).1 = false → ∀ i ∈ cands, NoStep tags final rs s rem i) := by
+  intro cands
+  induction cands with
+  | nil => intro dead _ hd; rw [linTry_nil]; exact ⟨hd, fun _ i hi => by cases hi⟩
+  | cons i cs ih =>
+      intro dead hc hd
+      rw [linTry_cons]
+      obtain ⟨d1, c1⟩ := tryOne_complete tags final rs fuel hS s rem hl i (hc i (by simp)) dead hd
+      by_cases h1 : (tryOne tags final rs fuel s rem i dead).1 = true
+      · simp only [h1, if_true]
+        exact ⟨d1, fun hf => Bool.noConfusion hf⟩
+      · simp only [h1, Bool.false_eq_true, if_false]
+        obtain ⟨d2, c2⟩ := ih _ (fun j hj => hc j (by simp [hj])) d1
+        refine ⟨d2, fun hf j hj => ?_⟩
+        rcases List.mem_cons.mp hj with e | e
+        · subst e; exact c1 (by simpa using h1)
+        · exact c2 hf j e
+
+theorem Lin.cons_inv (tags : List (Nat × List Nat)) (final : List Nat) (rs : List LRec) (s : LState)
+    (a : Nat) (as : List Nat) (h : Lin tags final rs s (a :: as)) :
+    ∃ i ∈ a :: as, ¬ NoStep tags final rs s (a :: as) i := by
+  cases h with
+  | step _ s' _ i r hi hm hr ha hl =>
+      exact ⟨i, hi, fun hn => hn ⟨hm, r, s', hr, ha, hl⟩⟩
+
+theorem linSearch_complete (tags : List (Nat × List Nat)) (final : List Nat) (rs : List LRec) :
+    ∀ (fuel : Nat) (s : LState) (rem : List Nat) (dead : Dead), rem.length ≤ fuel →
+      DeadOK tags final rs dead →
+      DeadOK tags final rs (linSearch tags final rs fuel s rem dead).2 ∧
+      ((linSearch tags final rs fuel s rem dead).1 = false → ¬ Lin tags final rs s rem) := by
+  intro fuel
+  induction fuel with
+  | zero =>
+      intro s rem dead hl hd
+      cases rem with
+      | nil =>
+          rw [linSearch_nil]
+          refine ⟨hd, fun hf hlin => ?_⟩
+          cases hlin with
+          | done _ h => simp [h] at hf
+          | step _ _ _ i _ hi => cases hi
+      | cons a as => simp at hl
+  | succ f ih =>
+      intro s rem dead hl hd
+      cases rem with
+      | nil =>
+          rw [linSearch_nil]
+          refine ⟨hd, fun hf hlin => ?_⟩
+          cases hlin with
+          | done _ h => simp [h] at hf
+          | step _ _ _ i _ hi => cases hi
+      | cons a as =>
+          rw [linSearch_succ_cons]
+          by_cases hdc : dead.contains (s.reg, s.selected, a :: as) = true
+          · simp only [hdc, if_true]
+            refine ⟨hd, fun _ => ?_⟩
+            have hmem : (s.reg, s.selected, a :: as) ∈ dead := by simpa using hdc
+            exact hd _ _ _ hmem
+          · simp only [hdc, Bool.false_eq_true, if_false]
+            obtain ⟨d1, c1⟩ := linTry_complete tags final rs f ih s (a :: as) hl (a :: as) dead (fun _ h => h) hd
+            by_cases hr : (linTry tags final rs f s (a :: as) (a :: as) dead).1 = true
+            · simp only [hr, if_true]
+              exact ⟨d1, fun hf => Bool.noConfusion hf⟩
+            · simp only [hr, Bool.false_eq_true, if_false]
+              have hno : ¬ Lin tags final rs s (a :: as) := by
+                intro hlin
+                obtain ⟨i, hi, hn⟩ := Lin.cons_inv tags final rs s a as hlin
+                exact hn (c1 (by simpa using hr) i hi)
+              refine ⟨?_, fun _ => hno⟩
+              intro reg sel rem hmem
+              rcases List.mem_cons.mp hmem with e | e
+              · have e1 : reg = s.reg := by injection e
+                have e2 : sel = s.selected ∧ rem = a :: as := by
+                  have : (sel, rem) = (s.selected, a :: as) := by injection e
+                  exact ⟨by injection this, by injection this⟩
+                obtain ⟨e2, e3⟩ := e2
+                subst e1 e2 e3
+                exact hno
+              · exact d1 _ _ _ e
+
+/-- **the memoised search decides exactly the existence of a linearization** -/
+theorem linearizableB_iff_Lin (tags : List (Nat × List Nat)) (init final : List Nat) (rs : List LRec) :
+    linearizableB tags init final rs = true ↔
+      Lin tags final rs { reg := sortKeys init, selected := [] } (List.range rs.length) := by
+  unfold linearizableB
+  constructor
+  · exact linSearch_sound tags final rs _ _ _ _
+  · intro h
+    have := (linSearch_complete tags final rs (rs.length + 1) { reg := sortKeys init, selected := [] }
+      (List.range rs.length) [] (by simp) (fun _ _ _ hm => by cases hm)).2
+    cases hb : (linSearch tags final rs (rs.length + 1) { reg := sortKeys init, selected := [] }
+      (List.range rs.length) []).1 with
+    | true => rfl
+    | false => exact absurd h (this hb)
+
+end SV
+
+namespace SV
+
+/-! ### `Lin` is the textbook definition -/
+
+/-- sequential replay of the calls in the order `ord`: every observed result is the machine's -/
+def Replay (tags : List (Nat × List Nat)) (final : List Nat) (rs : List LRec) : LState → List Nat → Prop
+  | s, [] => s.reg = final
+  | s, i :: rest => ∃ r s', rs[i]? = some r ∧ lApply tags s r.op = some s' ∧ Replay tags final rs s' rest
+
+/-- `ord` respects real-time precedence: no point is placed before a point of a call that had
+    already returned when the former's call was invoked -/
+def RespectsRT (rs : List LRec) (ord : List Nat) : Prop :=
+  ord.Pairwise (fun i j => ∀ ri rj, rs[i]? = some ri → rs[j]? = some rj → ¬ rj.res < ri.inv)
+
+theorem minimalIn_iff (rs : List LRec) (rem : List Nat) (i : Nat) :
+    minimalIn rs rem i = true ↔
+      ∃ r, rs[i]? = some r ∧ ∀ j ∈ rem, ∀ r', rs[j]? = some r' → ¬ r'.res < r.inv := by
+  unfold minimalIn
+  cases hr : rs[i]? with
+  | none => simp
+  | some r =>
+      simp only [List.all_eq_true, Option.some.injEq, exists_eq_left']
+      constructor
+      · intro h j hj r' hr'
+        have := h j hj
+        simp only [hr'] at this
+        simpa using this
+      · intro h j hj
+        cases hr' : rs[j]? with
+        | none => rfl
+        | some r' => simpa using h j hj r' hr'
+
+theorem filter_ne_eq_erase (rem : List Nat) (i : Nat) (hn : rem.Nodup) :
+    rem.filter (· != i) = rem.erase i := (List.Nodup.erase_eq_filter hn i).symm
+
+theorem Lin_iff (tags : List (Nat × List Nat)) (final : List Nat) (rs : List LRec)
+    (hwf : ∀ r ∈ rs, r.inv ≤ r.res) (s : LState) (rem : List Nat) (hn : rem.Nodup) :
+    Lin tags final rs s rem ↔
+      ∃ ord, ord.Perm rem ∧ RespectsRT rs ord ∧ Replay tags final rs s ord := by
+  constructor
+  · intro h
+    induction h with
+    | done s h => exact ⟨[], List.Perm.refl _, List.Pairwise.nil, h⟩
+    | step s s' rem i r hi hm hr ha _ ih =>
+        have hn' : (rem.filter (· != i)).Nodup := hn.sublist List.filter_sublist
+        obtain ⟨ord, hp, hrt, hrep⟩ := ih hn'
+        refine ⟨i :: ord, ?_, ?_, r, s', hr, ha, hrep⟩
+        · rw [filter_ne_eq_erase rem i hn] at hp
+          exact (List.Perm.cons i hp).trans (List.perm_cons_erase hi).symm
+        · refine List.Pairwise.cons ?_ hrt
+          intro j hj ri rj hri hrj
+          obtain ⟨r0, hr0, hmin⟩ := (minimalIn_iff rs rem i).mp hm
+          have : ri = r0 := by rw [hri] at hr0; exact Option.some.inj hr0
+          subst this
+          have hjrem : j ∈ rem := (List.mem_filter.mp (hp.mem_iff.mp hj)).1
+          exact hmin j hjrem rj hrj
+  · rintro ⟨ord, hp, hrt, hrep⟩
+    induction ord generalizing s rem with
+    | nil =>
+        have : rem = [] := List.Perm.eq_nil hp.symm
+        subst this
+        exact Lin.done s hrep
+    | cons i ord ih =>
+        obtain ⟨r, s', hr, ha, hrep'⟩ := hrep
+        have hi : i ∈ rem := hp.mem_iff.mp (by simp)
+        have hpw := List.pairwise_cons.mp hrt
+        have hp' : ord.Perm (rem.filter (· != i)) := by
+          rw [filter_ne_eq_erase rem i hn]
+          have := hp.erase i
+          simpa using this
+        have hn' : (rem.filter (· != i)).Nodup := hn.sublist List.filter_sublist
+        refine Lin.step s s' rem i r hi ?_ hr ha (ih s' _ hn' hp' hpw.2 hrep')
+        rw [minimalIn_iff]
+        refine ⟨r, hr, ?_⟩
+        intro j hj r' hr'
+        by_cases hji : j = i
+        · subst hji
+          have : r' = r := by rw [hr] at hr'; exact (Option.some.inj hr').symm
+          subst this
+          have := hwf r' (List.mem_of_getElem? hr)
+          omega
+        · have hjo : j ∈ ord := by
+            have : j ∈ rem.filter (· != i) := List.mem_filter.mpr ⟨hj, by simpa using hji⟩
+            exact hp'.mem_iff.mpr this
+          exact hpw.1 j hjo r r' hr hr'
+
+/-- a concurrent history is linearizable: some total order of the atomic points that is a
+    rearrangement of all of them, respects real-time precedence and replays on the sequential
+    registry machine with exactly the observed results, ending in the observed registry -/
+def Linearizable (tags : List (Nat × List Nat)) (init final : List Nat) (rs : List LRec) : Prop :=
+  ∃ ord : List Nat, ord.Perm (List.range rs.length) ∧ RespectsRT rs ord ∧
+    Replay tags final rs { reg := sortKeys init, selected := [] } ord
+
+end SV
